@@ -1003,16 +1003,25 @@ def _bcast_cols(value, n, node):
 def store_cols(it, f, names, value, node, mask=None):
     terms_ = _bcast_cols(value, len(names), node)
     kv_ = label_key(value)
-    if kv_ is not None and not f.row:
-        if label_key(f) == ("empty", None):
-            f.adopted = True  # a table without rows takes over the labels of the first column stored into it
+    vs = getattr(value, "space", None)
+    if not f.row and label_key(f) == ("empty", None):
+        # a table without rows takes over the row labels (and the rows) of the first column stored into it
+        f.adopted = True
+        if kv_ is not None:
             f.labels_positional = kv_[0] == "pos"
             f.lab_root = kv_[1]
         else:
-            check_labels(it, "store", f, value, node)
-    vs = getattr(value, "space", None)
+            f.labels_positional = True
+            f.lab_root = object()
+        if vs is not None:
+            f.space = vs
+    elif kv_ is not None and not f.row:
+        check_labels(it, "store", f, value, node)
     if vs is not None and f.space is not None and not vs.same(f.space) and not f.row:
-        it.record("space-mismatch", "store", [f, value], {}, node, {"frame_space": f.space, "value_space": vs, "names": list(names)})
+        masked_same = (mask is not None and vs.how == "filter" and vs.parent is not None and vs.parent.same(f.space)
+                       and vs.key == to_term(mask).key())  # df.loc[m, c] = f(df.loc[m, c]): the value lives in exactly the stored rows
+        if not masked_same:
+            it.record("space-mismatch", "store", [f, value], {}, node, {"frame_space": f.space, "value_space": vs, "names": list(names)})
     g = it.store_guard()
     if g is not None:
         mask = g if mask is None else mk("and", mask, g)
